@@ -222,6 +222,15 @@ def native_probe(c, regfactory, per_path=3, max_paths=6):
     fd = c.fdef
     if fd is None:
         return []
+    # a parameter the contract does not know (a change added it): the probe passes a string for it (a guess; the replay on
+    # the real function decides, so a bad guess can only lose the witness)
+    import copy as _copy
+    argn = [a.arg for a in fd.node.args.posonlyargs + fd.node.args.args if a.arg != "self"]
+    if any(p_ not in c.params for p_ in argn):
+        c = _copy.copy(c)
+        c.params = dict(c.params)
+        for p_ in argn:
+            c.params.setdefault(p_, "str")
 
     def setup(ctx):
         reg = regfactory()
